@@ -183,9 +183,14 @@ def run(p, script, seed=0):
                     pending.append(row)
             elif kind == "label_badcols":
                 row = mk(bool(s[1]), bool(s[2]))
-                row["z"] = row.pop("x1")
                 e["colsok"] = False
-                det.give_oracle_label(pd.DataFrame([row]))
+                if rng.random() < 0.5:
+                    row["z"] = row.pop("x1")
+                    det.give_oracle_label(pd.DataFrame([row]))
+                else:       # the reference's names, one of them twice: not the reference's columns either
+                    lab = pd.DataFrame([row])
+                    dup = rng.choice(list(lab.columns))
+                    det.give_oracle_label(pd.concat([lab, lab[[dup]]], axis=1))
             elif kind == "label2":
                 e["nrows"] = 2
                 det.give_oracle_label(pd.DataFrame([mk(True, True), mk(False, True)]))
